@@ -183,7 +183,7 @@ theorem decStepC_spec (t : Tw.Huffman.Table) (cap nd : Nat) (out : Bytes) (bit :
         match decStep t cap nd out bit with
         | .cont _ out' => out'.length
         | _ => out.length) := by
-  unfold decStepC decStep
+  unfold decStepC decStep Tw.Huffman.child Tw.Huffman.childF
   simp only []
   generalize (if bit = true then (Tw.Huffman.node t nd).2 else (Tw.Huffman.node t nd).1) = idx
   by_cases h1 : idx ≥ Tw.Huffman.NUM_SYMBOLS
